@@ -366,7 +366,7 @@ def headers_sync_state(ctx, P, cg):
 
     # ---- PRESYNC -> REDOWNLOAD transition
     hname = vc.params[0]["n"]
-    EMPTY = re.compile(r"%s\.size\(\)" % hname)
+    EMPTY = (re.compile(r"%s\.empty\(\)" % hname), False)
     at_c = {"PRESYNC": ST + "PRESYNC", "CONNECTS": "%s[0].hashPrevBlock == m_last_header_received.GetHash()" % hname,
             "LOW": "m_current_chain_work < m_minimum_required_work", "DONE": re.compile(r"done\(loop@\d+\)"), "NONEMPTY": EMPTY}
     loops = [st for st in stmts(vc.body) if st.get("k") == "foreach" and loop_range_key(st, naming(vc, P)) == "each(%s)" % hname]
@@ -377,7 +377,7 @@ def headers_sync_state(ctx, P, cg):
                      "ValidateAndStoreHeadersCommitments/REDOWNLOAD", "the sync switches to REDOWNLOAD only in PRESYNC, for a batch connecting to the last header received, "
                      "after every header of the batch was processed, and with accumulated work >= the minimum required work")
     ctx.floor("REDOWNLOAD transitions", len(ss), 1)
-    nonempty = lambda e: is_true_ret(e) and F.implies(e.formula, F.atom("%s.size()" % hname))
+    nonempty = lambda e: is_true_ret(e) and F.implies(e.formula, F.mk_not(F.atom("%s.empty()" % hname)))
     check_ladder(ctx, vc, P, [
         Rung("not-presync", "!PRESYNC", {"PRESYNC": ST + "PRESYNC"}),
         Rung("non-continuous", "!CONNECTS", {"CONNECTS": at_c["CONNECTS"]}),
@@ -447,7 +447,7 @@ def headers_sync_state(ctx, P, cg):
     at_r = {"REDL": ST + "REDOWNLOAD", "CONT": "%s.hashPrevBlock == m_redownload_buffer_last_hash" % hd,
             "PDT": "PermittedDifficultyTransition(m_consensus_params, 1 + m_redownload_buffer_last_height, %s, %s.nBits)" % (pl, hd),
             "ALL": "m_process_all_remaining_headers", "CPOS": "(1 + m_redownload_buffer_last_height) % m_params.commitment_period == m_commit_offset",
-            "HAVE": "m_header_commitments.size()",
+            "HAVE": ("m_header_commitments.empty()", False),
             "MATCH": re.compile(r"1 & m_hasher\(%s\.GetHash\(\)\) == m_header_commitments\.front\(\).*" % hd),
             "ENOUGH": ("m_redownload_chain_work < m_minimum_required_work", False)}
     is_append = lambda e: e[0] in ("mcall", "vcall") and re.search(r"::(emplace_back|push_back)$", e[1]) and match([".", ANY, H + "m_redownloaded_headers"], e[2])
@@ -468,7 +468,7 @@ def headers_sync_state(ctx, P, cg):
     ctx.ob("ValidateAndStoreRedownloadedHeader/anchor", "PROVENANCE", "the continuity anchor becomes the hash of the header just buffered", ok, vr.where, {"writes": [show(w.expr) for w in ws]})
 
     # ---- release
-    at_p = {"REDL": ST + "REDOWNLOAD", "OVERBUF": "m_params.redownload_buffer_size < m_redownloaded_headers.size()", "ANY": ("m_redownloaded_headers.size() < 1", False),
+    at_p = {"REDL": ST + "REDOWNLOAD", "OVERBUF": "m_params.redownload_buffer_size < m_redownloaded_headers.size()", "ANY": ("m_redownloaded_headers.empty()", False),
             "ALL": "m_process_all_remaining_headers"}
     rets = [st["n"] for st in stmts(pop.body) if st.get("k") == "decl" and "vector" in (st.get("ty") or "")]
     is_release = lambda e: e[0] in ("mcall", "vcall") and re.search(r"::(emplace_back|push_back|insert)$", e[1]) and e[2][0] == "local" and e[2][1] in rets
